@@ -10,6 +10,8 @@
 //!   J<code>          same with CodeSource::Internal
 //!   D                digest of the current context (section hashes)
 //!   d                digest of the current context (full text)
+//!   n                names only: imp (ordered), vars, fns, units, dims (full text, no evaluation)
+//!   s / S            order-insensitive digest: every section sorted (s: hashes, S: full text)
 //!   U<module>        can `use <module>` still be imported on a CLONE, and what does it add?
 //! output line: one item per I/F/J/D/d/U field, separated by TAB (escaped the same way)
 //!   I → ok|<value or ->|<type or ->|<prints>      or  err|<stage>:<Kind>|<prints>   or  PANIC
@@ -244,6 +246,65 @@ pub fn digest(ctx: &Context, full: bool) -> String {
         .join(";")
 }
 
+/// digest with every section's entries sorted and de-duplicated (for comparing import orders)
+pub fn digest_sorted(ctx: &Context, full: bool) -> String {
+    digest_sections(ctx)
+        .into_iter()
+        .map(|(k, v)| {
+            let mut parts: Vec<String> = split_top(&v);
+            parts.sort();
+            parts.dedup();
+            let v = parts.join(",");
+            if full {
+                format!("{k}=[{v}]")
+            } else {
+                format!("{k}={}", fnv(&v))
+            }
+        })
+        .collect::<Vec<_>>()
+        .join(";")
+}
+
+/// split a section at top-level commas (signatures contain commas inside brackets)
+fn split_top(s: &str) -> Vec<String> {
+    let mut out = Vec::new();
+    let mut depth = 0i32;
+    let mut cur = String::new();
+    for c in s.chars() {
+        match c {
+            '(' | '[' | '<' | '{' => depth += 1,
+            ')' | ']' | '>' | '}' => depth -= 1,
+            _ => {}
+        }
+        if c == ',' && depth <= 0 {
+            out.push(std::mem::take(&mut cur));
+            depth = 0;
+        } else {
+            cur.push(c);
+        }
+    }
+    if !cur.is_empty() {
+        out.push(cur);
+    }
+    out
+}
+
+pub fn names_only(ctx: &Context) -> String {
+    let imp: Vec<String> = ctx.resolver().imported_modules.iter().map(|m| m.to_string()).collect();
+    let vars: Vec<String> = ctx.variable_names().map(|s| s.to_string()).collect();
+    let fns: Vec<String> = ctx.function_names().map(|s| s.to_string()).collect();
+    let units: Vec<String> = ctx.unit_names().iter().map(|a| a.join("/")).collect();
+    let dims: Vec<String> = ctx.dimension_names().iter().map(|s| s.to_string()).collect();
+    format!(
+        "imp=[{}];vars=[{}];fns=[{}];units=[{}];dims=[{}]",
+        imp.join(","),
+        vars.join(","),
+        fns.join(","),
+        units.join(","),
+        dims.join(",")
+    )
+}
+
 fn run_case(line: &str) -> String {
     let mut table: HashMap<String, String> = HashMap::new();
     let mut builtin = true;
@@ -300,6 +361,18 @@ fn run_case(line: &str) -> String {
                         .unwrap_or_else(|_| "PANIC".into()),
                 );
             }
+            "n" => {
+                let ctx = slots.get(&cur).unwrap();
+                outs.push(catch_unwind(AssertUnwindSafe(|| names_only(ctx))).unwrap_or_else(|_| "PANIC".into()));
+            }
+            "s" | "S" => {
+                let ctx = slots.get(&cur).unwrap();
+                let full = tag == "S";
+                outs.push(
+                    catch_unwind(AssertUnwindSafe(|| digest_sorted(ctx, full)))
+                        .unwrap_or_else(|_| "PANIC".into()),
+                );
+            }
             "U" => {
                 let mut c2 = slots.get(&cur).unwrap().clone();
                 let o = interpret(&mut c2, &format!("use {rest}"), CodeSource::Internal);
@@ -314,6 +387,8 @@ fn run_case(line: &str) -> String {
 }
 
 pub fn main() {
+    // units::currencies must not go to the network: use the built-in test rates
+    Context::use_test_exchange_rates();
     let stdin = io::stdin();
     let stdout = io::stdout();
     let mut w = io::BufWriter::new(stdout.lock());
